@@ -30,6 +30,13 @@ def tasks(tier, seed):
             lab = f"{fam}[{','.join(f'{k}={v}' for k, v in s.items())}]"
             t.append(("contracts.models_vjp", "task", (fam, tuple(s.items()), "", seed), 900 if tier == "quick" else 3000, lab))
     t.append(("contracts.models_vjp", "task", ("sparse_mlp", tuple(dict(n=1, d=2, K=2, h=2).items()), "eliminated0", seed), 900, "sparse_mlp[n=1,d=2,K=2,h=2,eliminated0]"))
+    # the first shape of every family once more with data, predictions and incoming gradient handed in column-major
+    for fam, shapes in SHAPES[tier].items():
+        if fam == "kernel_rim":
+            continue
+        s = shapes[0]
+        t.append(("contracts.models_vjp", "task", (fam, tuple(s.items()), "column-major", seed), 900 if tier == "quick" else 3000,
+                  f"{fam}[{','.join(f'{k}={v}' for k, v in s.items())},column-major]"))
     t.append(("contracts.models_vjp", "task_rim", (2, 2, seed), 300, "RIM._update_weights[2x2]"))
     t.append(("contracts.models_vjp", "task_rim", (1, 3, seed), 300, "RIM._update_weights[1x3]"))
     t.append(("contracts.models_vjp", "task_rim", (2, 2, seed, "sgd"), 300, "RIM._update_weights[2x2,sgd]"))
